@@ -34,7 +34,7 @@ CONSTANTS
   Targets,    \* spelling ids the server may redirect to
   Statuses,   \* subset of {301, 302, 303, 307, 308}
   Forms,      \* subset of {"abs", "absuc", "noscheme", "hostrel", "rel"}
-  Methods,    \* subset of {"GET", "HEAD", "POST", "PUT"}  (POST/PUT carry a body)
+  Methods,    \* subset of {"GET", "HEAD", "POST", "PUT", "PATCH"}  (POST/PUT/PATCH carry a body)
   MaxSet,     \* values of maxRedirectsCount
   MaxHops     \* exploration bound: redirect responses issued by the server
 
@@ -91,7 +91,7 @@ Trusted(initId, tgtId) ==
 SloppyTrusted(initId, tgtId) ==
   Trusted(initId, tgtId) \/ (SpellTab[initId].canon = "h0.test" /\ tgtId \in {"prefix", "atevil"})
 
-HasBody(m) == m \in {"POST", "PUT"}
+HasBody(m) == m \in {"POST", "PUT", "PATCH"}
 
 \* prev / last keep only what the state invariants need; host and path live in the history
 NoReq == [trusted |-> TRUE, creds |-> FALSE, method |-> "", body |-> "no"]
@@ -232,7 +232,7 @@ AllInits == { id \in SpellIds : SpellTab[id].kind = "ok" }
 AllTargets == SpellIds
 AllStatuses == {301, 302, 303, 307, 308}
 AllForms == {"abs", "absuc", "noscheme", "hostrel", "rel"}
-AllMethods == {"GET", "HEAD", "POST", "PUT"}
+AllMethods == {"GET", "HEAD", "POST", "PUT", "PATCH"}
 \* reduced menus (exhaustive two-hop chains; quick model check)
 KeyInits == {"same", "upport", "sub", "ip6"}
 KeyTargets == {"same", "port", "sub", "subsub", "prefix", "suffix", "atevil", "other", "ip6port", "ip6look", "pctdot"}
